@@ -211,9 +211,12 @@ func thorough(rep *eng.Report, prop, repo, verif string, baseKeys map[string]boo
 			}
 			loadFail := false
 			for _, k := range res.Fired {
-				if strings.HasPrefix(k, prop+".load|") {
+				if strings.HasPrefix(k, prop+".load|") || strings.Contains(k, "load errors:") {
 					loadFail = true
 				}
+			}
+			if strings.Contains(string(out), "load errors:") {
+				loadFail = true
 			}
 			switch {
 			case loadFail:
